@@ -184,4 +184,124 @@ theorem where_missing_probe_counterexample :
       [condOf Option.none (0, .dict .gt (.scalar .missing))] = .ok [[.missing, .int 7]] ∧
     whereWF Cfg.fixed exT Option.none [(0, .dict .gt (.scalar .missing))] = false := by decide +kernel
 
+/-! ## `index` -/
+
+/-- **index reorders, and orders.**  For a well-formed call (`indexWF`: a table that owns its lists,
+distinct index columns that differ from the current `_indexes`, cells of each index column
+mutually comparable and not `None`) `Table.index` succeeds, keeps the columns, reports the
+requested indexes, and the rows it shows afterwards are the rows before in the order `perm`
+(a permutation): cell by cell equal up to Python's `==` (`1` and `1.0` may change places inside a
+group of an earlier index column), exactly equal in every column that is not an index column; and
+they are in non-decreasing lexicographic order of the index columns. -/
+theorem index_spec (cfg : Cfg) (t : Table) (indx : List Nat) (hwf : indexWF cfg t indx = true) :
+    ∃ (t' : Table) (perm : List Nat) (R R' : List (List Cell)), t.index cfg indx = .ok t' ∧ t.rows = .ok R ∧ t'.rows = .ok R' ∧
+      t'.columns = t.columns ∧ t'.indexes = effIndex cfg t indx ∧
+      R'.length = R.length ∧ perm.Perm (List.range R.length) ∧
+      (∀ i, i < R.length → (R'.getD i []).map Cell.key = (R.getD (perm.getD i 0) []).map Cell.key) ∧
+      (∀ i, i < R.length → ∀ k, k < t.columns.length → t.columns.getD k 0 ∉ effIndex cfg t indx →
+        (R'.getD i []).getD k .missing = (R.getD (perm.getD i 0) []).getD k .missing) ∧
+      (∀ i j, i < j → j < R.length →
+        lexLt (idxPositions t.columns (effIndex cfg t indx)) (R'.getD j []) (R'.getD i []) = false) :=
+  index_spec' cfg t indx hwf
+
+/-- rows (2,x) (1,y) (3,z) (1,w), not indexed -/
+def exU : Table :=
+  { columns := [0, 1], data := [(0, [.int 2, .int 1, .int 3, .int 1]), (1, [.str [120], .str [121], .str [122], .str [119]])],
+    sel := .all, indexes := [] }
+
+/-- the hypotheses are satisfiable: two index columns -/
+example : indexWF Cfg.unfixed exU [0, 1] = true := by decide +kernel
+
+/-- P14: `index('a','a')` in the pinned tree permutes column a twice: (2,x) (1,y) (3,z) (1,w) becomes
+(1,y) (1,x) (2,z) (3,w) — three rows of the result were not in the table -/
+theorem index_duplicate_columns_counterexample :
+    rowsOf (exU.index Cfg.unfixed [0, 0]) = .ok [[.int 1, .str [121]], [.int 1, .str [120]], [.int 2, .str [122]], [.int 3, .str [119]]] ∧
+    indexWF Cfg.unfixed exU [0, 0] = false ∧ indexWF Cfg.fixed exU [0, 0] = true ∧
+    rowsOf (exU.index Cfg.fixed [0, 0]) = .ok [[.int 1, .str [121]], [.int 1, .str [119]], [.int 2, .str [120]], [.int 3, .str [122]]] := by
+  decide +kernel
+
+/-- P13 (every tree): `index('a')` on a table whose `_indexes` is already `('a',)` returns at once,
+whatever order the rows are in -/
+theorem index_noop_on_stale_counterexample :
+    rowsOf (exStale.index Cfg.fixed [0]) = .ok [[.int 1], [.int 3], [.int 2], [.int 0]] ∧
+    indexWF Cfg.fixed exStale [0] = false := by decide +kernel
+
+/-! ## lohis, `groupby`, and chains of operations -/
+
+/-- **lohis.**  On a well-formed table (or `where` result) whose rows are in index order
+(`Indexed`), `_calc_lohis` succeeds and the segments recorded for the `j`-th index column are
+consecutive and cover all rows (`segs`), rows inside a segment agree on the first `j` index columns
+(`agree`), rows of different segments are strictly ordered by them (`strict`); from the second
+column on no segment is empty, and the first column has the single segment `(0, len)`. -/
+theorem lohis_correct (cfg : Cfg) (t : Table) (N : Nat) (hok : t.OK N) (hix : Indexed t N) (hne : t.indexes ≠ []) :
+    ∃ lohis, t.calcLohis cfg = .ok lohis ∧
+      ∀ j (hj : j < t.indexes.length), ∃ segs, dictGet lohis t.indexes[j] = .ok segs ∧
+        StageInv (Kt t) (t.m N) (t.indexes.take j) (List.range (t.m N)) segs ∧ (0 < j → ∀ p ∈ segs, p.1 < p.2) ∧
+        (j = 0 → segs = [(0, t.m N)]) :=
+  lohis_correct' cfg t N hok hix hne
+
+/-- the hypotheses `t.OK N` and `Indexed t N` are satisfiable (and decidable: `tableOKB`, `indexedB`):
+the example table, and a two-row view of it -/
+example : exT.OK 4 ∧ Indexed exT 4 := ⟨tableOKB_sound (by decide +kernel), indexedB_sound (by decide +kernel)⟩
+
+example : Table.OK { exT with sel := .list [1, 3] } 4 ∧ Indexed { exT with sel := .list [1, 3] } 4 :=
+  ⟨tableOKB_sound (by decide +kernel), indexedB_sound (by decide +kernel)⟩
+
+/-- **groupby partitions exactly by the index prefix.**  `groupby(level, 'count')` on a table in
+index order yields one group per segment `[lo,hi)`; the segments are consecutive and cover the rows
+`0 … len`; all rows of a group agree (up to `==`) on the first `level` index columns; rows of
+different groups are strictly ordered by those columns (so no two groups share a prefix); for
+`level ≥ 1` no group is empty; the reported index is the prefix of the group's first row and the
+count its size. -/
+theorem groupby_partition (cfg : Cfg) (t : Table) (N : Nat) (hok : t.OK N) (hix : Indexed t N)
+    (level : Nat) (hlev : level < t.indexes.length) :
+    ∃ segs : List (Nat × Nat),
+      t.groupby cfg level .count = .ok (segs.map (fun p =>
+        GroupOut.cnt ((t.indexes.take level).map (fun d => cellAt (t.vcol d) p.1)) (p.2 - p.1))) ∧
+      Segs segs 0 (t.m N) ∧
+      (∀ d ∈ t.indexes.take level, ∀ p ∈ segs, ∀ i j, p.1 ≤ i → i < p.2 → p.1 ≤ j → j < p.2 → Kt t d i = Kt t d j) ∧
+      (∀ p ∈ segs, ∀ i j, i < p.2 → p.2 ≤ j → j < t.m N → lexLtK (Kt t) (t.indexes.take level) i j = true) ∧
+      (0 < level → ∀ p ∈ segs, p.1 < p.2) := by
+  obtain ⟨segs, hs, hne, e⟩ := groupby_count_spec' cfg t N hok hix level hlev
+  refine ⟨segs, e, hs.segs, ?_, ?_, hne⟩
+  · intro d hd p hp i j a b c e'
+    have hb := hs.segs.bounds p hp
+    have := hs.agree d hd p hp i j a b c e'
+    rwa [getD_range _ i (by omega), getD_range _ j (by omega)] at this
+  · intro p hp i j a b c
+    have := hs.strict p hp i j a b c
+    rwa [getD_range _ i (by omega), getD_range _ j c] at this
+
+/-- **index establishes index order** (so that everything above applies to what `index` returns) -/
+theorem index_establishes_order (cfg : Cfg) (t : Table) (N : Nat) (hok : t.OK N) (hsel : t.sel = .all) (indx : List Nat)
+    (hne : indx ≠ []) (hdata : t.data ≠ []) (hnd : (effIndex cfg t indx).Nodup) (hdiff : t.indexes ≠ effIndex cfg t indx)
+    (hcols : ∀ d ∈ effIndex cfg t indx, IdxColOK t N d) :
+    ∃ t', t.index cfg indx = .ok t' ∧ t'.OK N ∧ Indexed t' N :=
+  index_indexed cfg t N hok hsel indx hne hdata hnd hdiff hcols
+
+/-- **where on a table in index order** (what `index` returned, or a `where` result of such a table —
+where-of-where): no hypothesis about lohis or sortedness is left, only the probes matter
+(`KwOKIdx`: not `None`, comparable with the column, no repeated probes for `in` in a tree without
+the P8 repair, no `Missing` probe under an order comparison, table not empty without the P12
+repair, `<=`/`>=` on an unindexed column do not meet `Missing` without the P11 repair) and the
+P10 condition `NoLeak`.  The result shows exactly the plain filter and is again well-formed and in
+index order, so the theorem applies to it again. -/
+theorem where_of_where (cfg : Cfg) (t : Table) (N : Nat) (hok : t.OK N) (hix : Indexed t N) (pos : Option Op)
+    (kws : List (Nat × Arg)) (hne : kws ≠ []) (hkw : ∀ kw ∈ kws, KwOKIdx cfg t (t.m N) pos kw) (hleak : NoLeak cfg kws)
+    (R rs : List (List Cell)) (hR : t.rows = .ok R)
+    (hspec : whereS { columns := t.columns, rows := R } (kws.map (condOf pos)) = .ok rs) :
+    ∃ t', t.pwhere cfg Option.none pos kws = .ok t' ∧ t'.rows = .ok rs ∧
+      t'.columns = t.columns ∧ t'.indexes = t.indexes ∧ t'.OK N ∧ Indexed t' N :=
+  where_indexed' cfg t N hok hix pos kws hne hkw hleak R rs hR hspec
+
+/-- view of a view: the rows of a table seen through an increasing selection of row numbers are the
+selected rows, whatever the table itself is a view of (`composeSel` = `View.__init__` on a `View`,
+including the `_try_slice` shortcut) -/
+theorem view_compose (t : Table) (N : Nat) (hok : t.OK N) (select : List Nat)
+    (hinc : StrictInc select) (hlt : ∀ i ∈ select, i < t.m N) :
+    ∃ sel', composeSel t.sel select = .ok sel' ∧ Table.OK { t with sel := sel' } N ∧
+      ∀ k, k < select.length → Table.rowAt { t with sel := sel' } k = t.rowAt (select.getD k 0) := by
+  obtain ⟨sel', e, hidx, hselok⟩ := composeSel_spec t.sel N hok.sel select hinc (fun i hi => by simpa [Table.m] using hlt i hi)
+  exact ⟨sel', e, ⟨hok.len, hok.cols, hselok⟩, fun k hk => rowAt_view t N hok sel' select hidx hlt k hk⟩
+
 end Coba.C17
